@@ -34,12 +34,14 @@ TRACE_SPEC = "ds/PDFContractTrace"
 APPROX_SPEC = "ds/PDFApproxTrace"
 
 
-def _cfg(name, weights, maxsize, dump):
+def _cfg(name, weights, maxsize, dump, drift=None):
     d = vlib.ensure_dir(os.path.join(WORK, "cfg-c12"))
     p = os.path.join(d, name + ".cfg")
     body = ["SPECIFICATION Spec", "CONSTANTS", "  Weights = {%s}" % ", ".join(map(str, weights)),
-            "  MaxSize = %d" % maxsize, "VIEW View"]
-    if dump:
+            "  MaxSize = %d" % maxsize, "  Drift = %s" % ("TRUE" if drift else "FALSE"), "VIEW View"]
+    if drift:
+        body.append("INVARIANT " + drift)
+    elif dump:
         body.append("ACTION_CONSTRAINT Dump")
     else:
         body += ["INVARIANTS TypeOK RowLengths RowsAreSums IndexConsistent SampleRefines",
@@ -53,6 +55,20 @@ def _parse_all(out, tag):
 
 
 # ------------------------------------------------------------------ jobs (run in worker processes)
+
+def _job_build(san):
+    return build_harness("pdf", needs_lib=False, san=san)
+
+
+def _job_drift(invariant):
+    """Design-level model of rounded weight changes (PDFTree with Drift = TRUE): TLC is expected to
+    find a behaviour breaking the invariant.  Informational: explains the nonrep:* findings at the
+    level of the algorithm, never a verdict on the code."""
+    res = run_tlc(SPEC, cfg=_cfg("drift-" + invariant, (0, 4, 8), 3, False, drift=invariant), workers=1,
+                  timeout=600)
+    res.out = res.out[-6000:]
+    return res
+
 
 def _job_mc(name, weights, n, workers):
     res = run_tlc(SPEC, cfg=_cfg(name, weights, n, False), workers=workers, timeout=3000)
@@ -382,7 +398,6 @@ def run(tier):
                        "rigorous rounding slack logged by the recorder, the zero-weight and in-storage clauses "
                        "exactly",
                        "element order is whatever getElements() reports; the contract does not prescribe it"]
-    binary = build_harness("pdf", needs_lib=False, san="asan")
     W4, W3, W2 = (0, 1, 2, 3), (0, 1, 2), (0, 1)
     if tier == "quick":
         mcs = [("mc-6x4", W4, 6), ("mc-9x2", W2, 9)]
@@ -396,15 +411,19 @@ def run(tier):
         rec = [("small", 40000), ("mixed", 40000), ("ctor", 40000)] * 3
         nonrep = [20000] * 3
     with ProcessPoolExecutor(max_workers=vlib.NCPU) as ex:
-        # everything that does not depend on anything else starts now
+        # everything that does not depend on anything else starts now (the harness is compiled
+        # while TLC explores)
+        buildf = ex.submit(_job_build, "asan")
         mcf = [(name, ex.submit(_job_mc, name, w, n, max(2, vlib.NCPU // 2))) for name, w, n in mcs]
         dumpf = [(d, ex.submit(_job_dump, d[0], d[1], d[2])) for d in dumps]
-        tracef = [ex.submit(_job_trace, binary, i, variant, nops, vlib.seed() * 131 + i)
-                  for i, (variant, nops) in enumerate(rec)]
         if os.environ.get("VERIF_C12_NONREP", "1") == "0":
             nonrep = []
             ck.assumptions.append("VERIF_C12_NONREP=0: histories with non-representable weights were skipped")
         nonrepf = [ex.submit(_job_nonrep, i, nops, vlib.seed() * 257 + i) for i, nops in enumerate(nonrep)]
+        driftf = [(inv, ex.submit(_job_drift, inv)) for inv in ("SampleInStorageDrift", "NoZeroWeightDrawnDrift")]
+        binary = buildf.result()
+        tracef = [ex.submit(_job_trace, binary, i, variant, nops, vlib.seed() * 131 + i)
+                  for i, (variant, nops) in enumerate(rec)]
         # 1. exhaustive model check of the implementation-shaped spec against the contract
         for name, f in mcf:
             res = f.result()
@@ -414,6 +433,16 @@ def run(tier):
                 # verdict on the code comes from the replay below, which covers the same shapes
                 log("[C12] note: TLC reports %s violated in the algorithm model (%s)" % (res.violated, name))
                 ck.set("model_violation", res.violated)
+        # 1b. design-level model of rounding in update(): which contract clauses can it break?
+        for inv, f in driftf:
+            res = f.result()
+            if res.error:
+                raise FrameworkError(res.error)
+            ck.set("rounding_model_" + inv, {"violated_by_the_algorithm": res.violated == inv,
+                                             "counterexample_depth": res.depth, "states": res.distinct})
+            if res.violated == inv:
+                log("[C12] note: with a weight change rounded by one unit the algorithm model breaks %s "
+                    "(counterexample of %d steps) - design-level explanation of nonrep:* findings" % (inv, res.depth))
         # 2. every transition of the state graph replayed on the real PDF
         replayf = []
         for (name, w, n, mode, walks, shards), f in dumpf:
